@@ -13,7 +13,10 @@ atStart s` says whether the byte after `s` starts a line.  The writer state `p` 
 is "the current output line already carries its prefix", so a Write in state `p` renders with
 `atStart = !p`; a fresh writer has `p = false`.
 
-All statements hold for every prefix, text, chunking and stop position; hypotheses appear only
+Histories (last section): `Spec.Indent.history` is what is asked when the caller goes on writing after
+short writes; there the full statement is false of the code (`resume_spec_fails`, finding D20-M1).
+
+All other statements hold for every prefix, text, chunking and stop position; hypotheses appear only
 where the Go code itself branches (`len(buf) == 0` returns before the underlying writer is called).
 The model's `write` describes `(*iw).Write`, which exists only for a non-empty prefix
 (`NewWriter(w, "")` returns `w` itself); the theorems do not need that restriction, because with
@@ -21,7 +24,8 @@ an empty prefix the rendering is the text itself (`render_empty_prefix`).
 -/
 namespace Goyang.Props.C20
 open Goyang.Model.Indent
-open Goyang.Spec.Indent (tagged render callerBytesIn atStartAfter nestedRender)
+open Goyang.Spec.Indent (tagged render callerBytesIn atStartAfter nestedRender cutState history observed
+  cutsAtEndState)
 open Goyang.Lemmas.Indent (join_write render_append atStartAfter_append callerBytesIn_le
   callerBytesIn_min render_getLast? tagged_append countP_tagged write_none_eq write_some_eq)
 
@@ -236,5 +240,86 @@ example : writes [62, 62] false [([97, 98], none), ([99, 100, 10, 101, 102], som
 example : write [62, 62] false [97, 10, 98] (some 1) =
     { partial_ := true, handed := [62, 62, 97, 10, 62, 62, 98], reached := [62], n := 0, err := true } := by decide
 example : callerBytesIn [62, 62] false [99, 100, 10, 101, 102] 4 = 3 := by decide
+
+/-! ### histories: the caller goes on writing after a short write
+
+`Spec.Indent.history` says what the property asks when the underlying writer cuts Writes short and
+the caller goes on (resuming with the unwritten remainder, or with anything else): the caller bytes
+accepted in successive calls are rendered as one text, so after a short write the line state is the
+one AT THE CUT (`Spec.Indent.cutState`).  The Go code records the state of the END of the argument
+before it calls the underlying writer (`write_short_count`, last clause).  The two differ whenever
+the cut separates bytes of different line state: the full statement is false of the code
+(`resume_spec_fails`, known finding D20-M1, replayed on the real code by corr-c20), and holds on the
+histories whose cuts fall where the state is that of the end of the argument (`resume_spec_partial`). -/
+
+/-- The specification of histories, on histories without a short write, is the specification of
+streams: the rendering of the concatenated text, every count the length of its argument. -/
+theorem history_success (pre : Bytes) (a : Bool) (chunks : List Bytes) :
+    observed (history pre a (chunks.map (·, none))) =
+      (render pre a chunks.flatten, chunks.map (fun c => ((c.length : Int), false))) := by
+  induction chunks generalizing a with
+  | nil => simp [history, observed, Lemmas.Indent.render_nil]
+  | cons c cs ih =>
+    have := ih (atStartAfter a c)
+    simp only [observed, Prod.mk.injEq] at this
+    simp only [List.map_cons, history, observed, List.flatten_cons, render_append, this.1, this.2,
+      List.map_cons]
+
+/-- The full statement — the writer behaves as the specification of histories asks, whatever the
+underlying writer cuts short and however the caller goes on — is FALSE of the code: with prefix
+`--`, `Write("ab\n")` cut after `--a` returns `(1, err)`; the caller resumes with `Write("b\n")` and
+the underlying writer ends up with `--a--b\n`, a prefix in the middle of the open line (the
+accepted bytes `ab\n` are rendered `--ab\n`). -/
+theorem resume_spec_fails :
+    ¬ ∀ (pre : Bytes) (cs : List (Bytes × Under)), writes pre false cs = observed (history pre true cs) := by
+  intro h
+  have := h [45, 45] [([97, 98, 10], some 3), ([98, 10], none)]
+  revert this
+  decide
+
+example : writes [45, 45] false [([97, 98, 10], some 3), ([98, 10], none)] =
+    ([45, 45, 97, 45, 45, 98, 10], [(1, true), (2, false)]) := by decide
+example : observed (history [45, 45] true [([97, 98, 10], some 3), ([98, 10], none)]) =
+    ([45, 45, 97, 98, 10], [(1, true), (2, false)]) := by decide
+/-- nothing got through, the caller tries again: the prefix is lost -/
+example : writes [45, 45] false [([97], some 0), ([97], none)] = ([97], [(0, true), (1, false)]) ∧
+    observed (history [45, 45] true [([97], some 0), ([97], none)]) = ([45, 45, 97], [(0, true), (1, false)]) := by decide
+
+/-- What does hold: on the histories in which every cut leaves the line state of the end of the
+cut argument (`cutsAtEndState`: no cut inside a prefix, and e.g. a cut inside the last line of a
+chunk that does not end in a line feed, at or after the end of that line's prefix — the shape of
+a caller resuming `abc` after `--a`), from any writer state, the writer does what the specification of
+histories asks: bytes reaching the underlying writer, counts and errors of all calls, including
+those after the short writes. -/
+theorem resume_spec_partial (pre : Bytes) (p : Bool) (cs : List (Bytes × Under))
+    (h : cutsAtEndState pre (!p) cs) :
+    writes pre p cs = observed (history pre (!p) cs) := by
+  induction cs generalizing p with
+  | nil => simp [writes, history, observed]
+  | cons c cs ih =>
+    obtain ⟨buf, u⟩ := c
+    cases u with
+    | none =>
+      simp only [cutsAtEndState] at h
+      have := ih (!(atStartAfter (!p) buf)) (by simpa using h)
+      simp only [Bool.not_not, observed] at this
+      simp only [writes, write_none_eq, history, observed, this, List.map_cons]
+    | some k =>
+      by_cases hb : buf = []
+      · subst hb
+        simp only [cutsAtEndState, List.isEmpty_nil, if_true] at h
+        have := ih p h
+        simp only [observed] at this
+        simp [writes, write, history, observed, this]
+      · simp only [cutsAtEndState, List.isEmpty_iff, hb, if_false] at h
+        have := ih (!(atStartAfter (!p) buf)) (by simpa using h.2)
+        simp only [Bool.not_not, observed] at this
+        simp only [writes, write_some_eq pre p hb k, history, List.isEmpty_iff, hb, if_false, h.1,
+          observed, this, List.map_cons]
+
+example : cutsAtEndState [45, 45] true [([97, 98, 99], some 3), ([98, 99, 10], none)] := by
+  simp only [cutsAtEndState]; decide
+example : writes [45, 45] false [([97, 98, 99], some 3), ([98, 99, 10], none)] =
+    ([45, 45, 97, 98, 99, 10], [(1, true), (3, false)]) := by decide
 
 end Goyang.Props.C20
